@@ -40,6 +40,47 @@ def case_strategy(draw, tier):
     return c
 
 
+@st.composite
+def reduce_twins_case(draw, tier):
+    """siblings that look different but REDUCE to the same content: each is a threshold over the same free core leaves
+    plus its own fixed leaves, with its value shifted by the sum of its constants (All(core + ones), Any(core + zeros),
+    AtLeast(t + s, core + constants summing to s)); next to them an integer leaf and/or a boolean under one parent"""
+    core = [{"k": "leaf", "id": i, "b": [0, 1]} for i in ["b", "c"][:draw(st.integers(1, 2))]]
+    if draw(st.integers(0, 3)) == 0:
+        core.append({"k": "leaf", "id": "m", "b": list(draw(st.sampled_from([(0, 2), (-1, 1)])))})
+    tau = draw(st.integers(1, len(core)))
+    sibs = []
+    for j in range(draw(st.integers(2, 3))):
+        form = draw(st.sampled_from(["atleast", "atleast", "all", "any"]))
+        consts = []
+        if form == "all" and tau == len(core) and all(l["b"] == [0, 1] for l in core):
+            for i in range(draw(st.integers(0, 2))):
+                consts.append({"k": "leaf", "id": "one%d%d" % (j, i), "b": [1, 1]})
+            node = {"k": "All", "id": "S%d" % j, "c": core + consts}
+        elif form == "any" and tau == 1:
+            for i in range(draw(st.integers(0, 2))):
+                consts.append({"k": "leaf", "id": "zero%d%d" % (j, i), "b": [0, 0]})
+            node = {"k": "Any", "id": "S%d" % j, "c": core + consts}
+        else:
+            ssum = 0
+            for i in range(draw(st.integers(0, 2))):
+                v = draw(st.sampled_from([0, 1, 1, 2, -1]))
+                ssum += v
+                consts.append({"k": "leaf", "id": "k%d%d" % (j, i), "b": [v, v]})
+            node = {"k": "AtLeast", "v": tau + ssum, "s": 1, "id": "S%d" % j, "c": core + consts}
+        sibs.append(node)
+    kids = list(sibs)
+    if draw(st.integers(0, 3)) > 0:
+        kids.append({"k": "leaf", "id": "q", "b": list(draw(st.sampled_from([(0, 3), (0, 2), (-2, 2), (-1, 1)])))})
+    if draw(st.booleans()):
+        kids.append({"k": "leaf", "id": "z", "b": [0, 1]})
+    n = len(kids)
+    parent = {"k": "AtLeast", "v": draw(st.sampled_from([1, n, n, n - 1, 2, n + 1])), "s": draw(st.sampled_from([1, 1, -1])), "id": draw(st.sampled_from(["M", None])), "c": kids}
+    if parent["s"] == -1:
+        parent["v"] = -draw(st.integers(0, n))
+    return {"model": parent, "points": None, "dl": [], "dc": []}
+
+
 def check(case, ev):
     spec = case["model"]
     m = common.build_valid(case, ev)
@@ -148,4 +189,4 @@ def shapes(slice_i, n):
 
 
 def parts(tier):
-    return [Part("wide_nodes", strategy=lambda t: __import__("vf.strategies", fromlist=["x"]).wide_case(allow_const=True).map(lambda c: dict(c, dl=[], dc=[])), check=check, quick=(2, 150), thorough=(4, 2000))] + [Part("shapes%d" % i, enumerate_cases=(lambda t, i=i: shapes(i, 6)), check=check, time_quick=120.0) for i in range(6)] + [Part("reduce", strategy=lambda t: case_strategy(t), check=check, quick=(8, 350), thorough=(16, 2500))]
+    return [Part("reduce_twins", strategy=lambda t: reduce_twins_case(t), check=check, quick=(2, 300), thorough=(4, 4000))] + [Part("wide_nodes", strategy=lambda t: __import__("vf.strategies", fromlist=["x"]).wide_case(allow_const=True).map(lambda c: dict(c, dl=[], dc=[])), check=check, quick=(2, 150), thorough=(4, 2000))] + [Part("shapes%d" % i, enumerate_cases=(lambda t, i=i: shapes(i, 6)), check=check, time_quick=120.0) for i in range(6)] + [Part("reduce", strategy=lambda t: case_strategy(t), check=check, quick=(8, 350), thorough=(16, 2500))]
